@@ -289,7 +289,7 @@ func c14R3(c *Ctx, rule string) {
 	var sends []ssa.Instruction
 	allInstrs(wr, func(i ssa.Instruction) {
 		if call, ok := i.(*ssa.Call); ok {
-			if g := call.Call.StaticCallee(); g != nil && g.Name() == "obfuscateAndSend" {
+			if g := call.Call.StaticCallee(); isFn(g, "internal/multiplex", "Stream.obfuscateAndSend") {
 				sends = append(sends, i)
 			}
 		}
